@@ -102,7 +102,9 @@ func c20AcceptedIntervalStaysWithinExpiry(ev *vlib.Evidence) {
 			return
 		}
 		if ex, _ := ap.Exited(); ex {
-			ev.Inconclusive("agent-exited")
+			b, _ := os.ReadFile(ap.LogPath)
+			ev.Case("accepted-interval-stays-within-expiry "+interval, true)
+			ev.Violate("cli:agent-at-an-accepted-interval-lost-its-pool", map[string]interface{}{"update_interval": interval, "after": time.Since(start).Round(time.Second).String(), "agent_log": tailStr(string(b), 600)})
 			return
 		}
 		polls++
